@@ -144,6 +144,21 @@ class PackageGenerator:
         if self.enable_custom_operations:
             self.files_to_include.append(self.base_schema_root_file_path)
 
+        self._add_typename_fields_to_fragments()
+
+    def _add_typename_fields_to_fragments(self):
+        """Parsing fragment adds __typename to its abstract selections in place,
+        as its class requires them, it has to be done before operations are printed."""
+        for fragment_definition in self.fragments_definitions.values():
+            ResultTypesGenerator(
+                schema=self.schema,
+                operation_definition=fragment_definition,
+                enums_module_name=self.enums_module_name,
+                fragments_definitions=self.fragments_definitions,
+                convert_to_snake_case=self.convert_to_snake_case,
+                custom_scalars=self.custom_scalars,
+            )
+
     def generate(self) -> List[str]:
         """Generate package with graphql client."""
         self._include_exceptions()
